@@ -65,6 +65,8 @@ PROPERTIES = {
              "what": "all 14400 ordered shape pairs rank 1..4 sizes 1..3 (add on every pair; sub/mul/axpy/div on "
                      + ("every pair" if tier == "thorough" else "a seeded sample of 1500") + ") plus random pairs with sizes up to 6",
              "require": {"judged": 1000, "refusals": 1000}},
+            {"name": "special_values", "cases": FE.special_value_cases(tier, seed), "mask": {"values", "dims", "unexpected-panic", "equality", "index-value"},
+             "what": "element-wise operations on operands that are all zeros / ones / equal / tiny / contain single zeros"},
         ],
         "rule": "a case = one ordered pair of operand shapes with position-coded values and the listed element-wise operations; distinct by program hash; non-trivial = at least one operation admitted or refused by the broadcasting rule",
     },
@@ -125,6 +127,9 @@ PROPERTIES = {
             {"name": "single_op_vjp", "cases": FE.c02_cases(tier, seed),
              "what": "one operation per case, backward with a prime-valued seed, every deposited gradient compared: element-wise ops over broadcast pairs and tracked subsets, neg/scale/powf(-2..4)/reciprocal/relu/sum(k)/reshape, matmul (flags, additive term, leading patterns, rank-1 forms), conv (strides 1..3, batches), user operations",
              "require": {"judged": 1500, "passes": 1500}},
+            {"name": "special_values", "cases": FE.special_value_cases(tier, seed),
+             "what": "value-dependent corners: operands that are all zeros / all ones / all equal / contain one zero or one / tiny magnitudes / repeated rows, through every element-wise and unary operation with gradients, result flags, equality, nested construction and indexing",
+             "require": {"passes": 500}},
             {"name": "single_op_vjp_large", "cases": FE.c02_large_cases(tier, seed),
              "what": "beyond the exhaustive sizes: element-wise gradients with dimensions up to 6 and rank up to 4, matmul up to 6x6x6 with leading dimensions and additive terms, sum(k), conv on images up to 8x8 with filters up to 4x4, strides up to 4, batches up to 4",
              "require": {"passes": 100}},
@@ -182,6 +187,8 @@ PROPERTIES = {
             {"name": "tracking_rules", "cases": FE.c09_cases(tier, seed), "mask": M_TRACK,
              "what": "every operation x every tracked subset of its operands (result flag, no reference kept when untracked, gradients only where tracked, flags restored after passes, gradients plain), untracked intermediates, random flag-heavy programs",
              "require": {"passes": 300, "owned": 30}},
+            {"name": "special_values", "cases": FE.special_value_cases(tier, seed + 1), "mask": M_TRACK,
+             "what": "tracking rules must not depend on values: all-zero / all-one / equal operands"},
             {"name": "tracking_rules_real", "cases": FR.real_tracking_cases(tier, seed), "spec": "TraceReal", "real": True,
              "mask": M_TRACK | {"unexpected-panic"},
              "what": "the transcendental operations (ln, exp, sigmoid, softmax, reciprocal, powf 1.5, division): result flags, gradients plain and untracked, operands own their buffers again after the results are dropped",
